@@ -67,11 +67,11 @@ def specFlip (mk : Mk) (bit : Nat) (v : Char) (cuts : String := "c") : List Spec
   -- every verdict it can decide, so an unexpected panic still surfaces as a DIFF.
   let inDigest := Spec.inRanges (digestRange mk.w).toList (bit / 8)
   if applies ∧ (v == 'a' ∨ v == 'n') then
-    [⟨"tamper-detected", region ++ "-" ++ String.singleton mk.kind ++ "-" ++ (mk.signer.splitOn ":").head!,
+    [⟨"tamper-detected", region ++ "-" ++ String.singleton mk.kind ++ "-" ++ sigBase mk.signer,
       s!"bit {bit} (byte {bit / 8}, {region}) flipped, reader {cuts}: the packet still decodes and is not rejected (verdict {v})"⟩]
   else if inDigest ∧ v != 'e' ∧ v != 'p' then
     -- "one whose digest does not match is rejected on decode"
-    [⟨"digest-checked", String.singleton mk.kind ++ "-" ++ (mk.signer.splitOn ":").head!,
+    [⟨"digest-checked", String.singleton mk.kind ++ "-" ++ sigBase mk.signer,
       s!"bit {bit} of the ParametersSha256Digest component flipped, reader {cuts}: the Interest still decodes (verdict {v})"⟩]
   else []
 
@@ -89,6 +89,11 @@ def stepC12 (st : St) (op : String) (got : String) : StepResult St :=
     { st := { st with last := r.built, mkExpected := some r.expected }, expected := none, cov := r.cov,
       spec := r.spec.filter (fun s => s.clause == "builds" || s.clause == "no-panic"),
       nontrivial := (r.built.map (fun m => m.signed || m.hasParams)).getD false }
+  | "fmk" :: _ =>
+    -- a make op under a failing entropy source: its own outcome is not part of the property (signers
+    -- that need randomness report an error, the others succeed); it only must not disturb the signer
+    { st := st, expected := none, cov := [if got == "err" then "fmk-err" else "fmk-ok"],
+      spec := if isCrash got then [⟨"no-panic", "fmk", tk got 160⟩] else [] }
   | ["hold"] =>
     match st.last with
     | none => { st := st, expected := some "skip" }
@@ -104,10 +109,10 @@ def stepC12 (st : St) (op : String) (got : String) : StepResult St :=
       { st := st, expected := some expected, cov := ["valheld"],
         spec :=
           (if (got.splitOn " ").getLast? == some "changed" then
-            [⟨"stable", String.singleton mk.kind ++ "-" ++ (mk.signer.splitOn ":").head!,
+            [⟨"stable", String.singleton mk.kind ++ "-" ++ sigBase mk.signer,
               "the bytes of a packet changed after the same signer instance built another packet"⟩] else []) ++
           (if hasVal ∧ !got.startsWith "a" ∧ !isCrash got then
-            [⟨"accepts", "held-" ++ String.singleton mk.kind ++ "-" ++ (mk.signer.splitOn ":").head!,
+            [⟨"accepts", "held-" ++ String.singleton mk.kind ++ "-" ++ sigBase mk.signer,
               s!"a packet is no longer accepted by the matching validator after the same signer instance built another packet: {tk got 40}"⟩] else []) }
   | ["cmp"] =>
     match st.mkExpected with
@@ -132,7 +137,7 @@ def stepC12 (st : St) (op : String) (got : String) : StepResult St :=
         let spec : List SpecFail :=
           (if isCrash got then [⟨"no-panic", "val", tk got 160⟩] else []) ++
           (if got == "e" then
-            [⟨"decodes", String.singleton mk.kind ++ "-" ++ (mk.signer.splitOn ":").head!,
+            [⟨"decodes", String.singleton mk.kind ++ "-" ++ sigBase mk.signer,
               s!"a packet built through the API does not decode (reader {cuts})"⟩] else []) ++
           (if (got.splitOn " cov=ne").length > 1 then
             [⟨"covered", String.singleton mk.kind ++ "-" ++ mk.signer,
